@@ -81,7 +81,13 @@ impl Acc {
                 self.excluded_known += rep.excluded_known;
                 self.oracle_checks += rep.checks;
                 self.extra_executions += rep.executions;
+                // a class counts cases, not occurrences within a case
+                let mut seen: Vec<&str> = Vec::new();
                 for c in &rep.classes {
+                    if seen.contains(c) {
+                        continue;
+                    }
+                    seen.push(c);
                     *self.classes.entry((*c).to_string()).or_default() += 1;
                 }
                 if rep.nontrivial {
